@@ -124,6 +124,12 @@ impl Interceptor for Tap {
                     use s2n_codec::Encoder;
                     payload.write_slice(&new);
                     pkt = parse(self.ep, conn, packet, &new);
+                    let mut w = self.w.lock().unwrap();
+                    w.ctx.now = w.ctx.now.max(pkt.t);
+                    w.ctx.attack_pkts.push((self.ep, pkt.space, pkt.pn, pkt.t));
+                    let b = pkt.brief();
+                    let ep = self.ep;
+                    w.ctx.log(|| format!("ep{ep} ATTACK rewrote outgoing packet to {b}"));
                 }
             }
         }
